@@ -647,6 +647,10 @@ func (d *Driver) stepTrust() {
 			cands = append(cands, m.Actor)
 		}
 	}
+	// wallets that never seal can be put in the trusted store as well: the exemption must stay limited to sealers
+	if r.Intn(3) == 0 {
+		cands = append(cands, d.W.Users[1:]...)
+	}
 	a := cands[r.Intn(len(cands))]
 	d.W.Trust(n, a.Addr, r.Intn(3) != 0)
 }
